@@ -1,4 +1,71 @@
-// engine K harnesses for module hook 'boolean' (included under cfg(kani) by /repo)
+// engine K — ff/boolean.rs (properties C08: GF(2) is a field; C09: only 0/1 decode)
+use generic_array::GenericArray;
+
+use super::*;
+
+fn any_b() -> Boolean {
+    Boolean(kani::any())
+}
+
+/// exhaustive GF(2) tables: + is xor, * is and, - = +, neg = id, ! flips; axioms -0=0, a+(-a)=0, a*1=a;
+/// the only non-zero element is its own inverse
+#[kani::proof]
+fn c08_boolean_field() {
+    let a = any_b();
+    let b = any_b();
+    let c = any_b();
+    kani::cover!(a.0 && b.0);
+    kani::cover!(!a.0 && !b.0);
+    assert!((a + b).0 == (a.0 ^ b.0));
+    assert!((a * b).0 == (a.0 & b.0));
+    assert!((a - b) == (a + b));
+    assert!(-a == a && (a + (-a)) == Boolean::ZERO && -Boolean::ZERO == Boolean::ZERO);
+    assert!((!a).0 == !a.0);
+    assert!(a * Boolean::ONE == a && a + Boolean::ZERO == a);
+    assert!((a + b) + c == a + (b + c) && (a * b) * c == a * (b * c) && a * (b + c) == a * b + a * c);
+    assert!(Boolean::ONE * Boolean::ONE == Boolean::ONE);
+    let mut x = a;
+    x += b;
+    assert!(x == a + b);
+    let mut y = a;
+    y -= b;
+    assert!(y == a - b);
+    let mut z = a;
+    z *= b;
+    assert!(z == a * b);
+    assert!(a.as_u128() == u128::from(a.0) && bool::from(a) == a.0);
+    assert!(<Boolean as PrimeField>::PRIME == 2 && <Boolean as SharedValue>::BITS == 1);
+}
+
+/// conversions from integers: truncate_from keeps the low bit; try_from accepts exactly 0 and 1 (Ok side)
+#[kani::proof]
+fn c08_boolean_conversions() {
+    let v: u128 = kani::any();
+    kani::cover!(v == 1);
+    kani::cover!(v > 1 && v & 1 == 0);
+    assert!(Boolean::truncate_from(v).0 == (v & 1 == 1));
+    assert!(Boolean::from_random_u128(v).0 == (v & 1 == 1));
+    if v < 2 {
+        match Boolean::try_from(v) {
+            Ok(b) => assert!(b.0 == (v == 1)),
+            Err(_) => assert!(false, "0 and 1 must be accepted"),
+        }
+    }
+    assert!(Boolean::from(v & 1 == 1).0 == (v & 1 == 1));
+}
+
+/// C09: Boolean::deserialize accepts exactly the bytes 0 and 1 (all 256 byte values)
+#[kani::proof]
+fn c09_boolean_deserialize() {
+    let b: u8 = kani::any();
+    kani::cover!(b == 1);
+    kani::cover!(b == 2);
+    let buf = GenericArray::from_array([b]);
+    match Boolean::deserialize(&buf) {
+        Ok(x) => assert!(b <= 1 && x.0 == (b == 1)),
+        Err(_) => assert!(b > 1),
+    }
+}
 
 #[cfg(test)]
 include!(concat!(env!("IPA_VERIF_DIR"), "/.build/playback/boolean.rs"));
